@@ -1,6 +1,6 @@
 (* Case interpreter used by the extracted OCaml driver and by the in-kernel
    cross-check: one ASCII case line in, one canonical result line out. *)
-From BL Require Import Base.Prelude Base.Floats Base.Decimal Mach.Val Mach.Ops Mach.Func Mach.Var Lang.Token Lang.Lex Lang.Ast Lang.Parse Drv.Show Drv.ShowLang.
+From BL Require Import Base.Prelude Base.Floats Base.Decimal Mach.Val Mach.Ops Mach.Func Mach.Var Lang.Token Lang.Lex Lang.Ast Lang.Parse Mach.Compile Mach.Listing Mach.Runtime Drv.Show Drv.ShowLang Drv.Session.
 From Coq Require Import String.
 Local Open Scope N_scope.
 
@@ -96,20 +96,26 @@ Definition run_case (O : oracle) (line : str) : str :=
       else if is kind "relist" then run_relist (str_of_hex name)
       else if is kind "ast" then run_ast true (str_of_hex name)
       else if is kind "astnc" then run_ast false (str_of_hex name)
+      else if is kind "session" then run_session O [name]
+      else if is kind "compile" then compile_dump (map str_of_hex (split_on 44 name [])) None
       else
       if is kind "from" then show_val (val_from_str (str_of_hex name))
       else if is kind "pos" then show_res show_val (fn_pos (Z.to_N (parse_Z name)))
       else s2l "?"
   | kind :: name :: a :: [] =>
+      if is kind "session" then run_session O [name; a] else
+      if is kind "compile" then compile_dump (match name with [45] => [] | _ => map str_of_hex (split_on 44 name []) end) (Some (str_of_hex a)) else
       if is kind "op1" then show_res show_val (run_op1 O name (parse_val a))
       else if is kind "tab" then show_res show_val (fn_tab (Z.to_N (parse_Z name)) (parse_val a))
       else if is kind "opn" then show_res show_val (run_opn O name [parse_val a])
       else s2l "?"
   | kind :: name :: a :: b :: [] =>
+      if is kind "session" then run_session O [name; a; b] else
       if is kind "op2" then show_res show_val (run_op2 O name (parse_val a) (parse_val b))
       else if is kind "opn" then show_res show_val (run_opn O name [parse_val a; parse_val b])
       else s2l "?"
   | kind :: name :: rest =>
+      if is kind "session" then run_session O (name :: rest) else
       if is kind "opn" then show_res show_val (run_opn O name (map parse_val rest)) else s2l "?"
   | _ => s2l "?"
   end.
